@@ -1233,7 +1233,7 @@ def c19_cases(tier, seed):
 
 
 _has_dc = lambda c, r: "defineComponent(" in c["src"]
-PROPS["C16"] = {"theorems": ['C16_literal', 'C16_alias', 'C16_paren', 'C16_partial_required_flags', 'C16_partial_sets_optional', 'C16_pick_omit_partition', 'C16_required_iff_not_optional', 'C16_imported_type_reported', 'C16_unknown_global_reported', 'C16_unsupported_construct_reported', 'aliasHook_registers', 'C16_registry_from_whole_module'], "cases": c16_cases, "nontrivial": _has_dc,
+PROPS["C16"] = {"theorems": ['C16_literal', 'C16_alias', 'C16_paren', 'C16_partial_required_flags', 'C16_partial_sets_optional', 'C16_pick_omit_partition', 'C16_required_iff_not_optional', 'C16_imported_type_reported', 'C16_unknown_global_reported', 'C16_unsupported_construct_reported', 'aliasHook_registers', 'C16_registry_from_whole_module', 'resolveElements_eq_members', 'propFold_mems', 'C16_grammar'], "cases": c16_cases, "nontrivial": _has_dc,
                 "explanation": "oracle: the set-theoretic meaning of the annotated props type over the WHOLE module's declarations (TypeSpec.propsOfType) = the keys and `required` flags of the injected props; a type outside the grammar must be reported"}
 PROPS["C17"] = {"theorems": ['C17_keyword_table', 'C17_structural_table', 'C17_literal_table', 'C17_builtin_class', 'C17_union_order', 'inferRuntime_eq_rt', 'rt_sound', 'C17_soundness', 'C17_emitted_no_stricter', 'C17_soundness_emitted', 'C17_null_kept', 'C17_boolean_string_order'], "cases": c17_cases, "nontrivial": _has_dc,
                 "explanation": "oracle: the JavaScript constructors of the declared type (TypeSpec.ctorsOfType; any/unknown = no check) = those of the emitted `type`, Boolean/String order kept"}
